@@ -128,6 +128,8 @@ def _str(it, f, args, kw, node):
     v = args[0] if args else ''
     if isinstance(v, (int, float, str, bool)) or v is None:
         return str(v)
+    if hasattr(v, 'cx_str'):         # extension value with a text form of its own (e.g. a path)
+        return v.cx_str(it)
     return Opaque('str')
 
 
